@@ -11,6 +11,7 @@
      20 warm pull differs from cold pull   21 pull above the remaining supply / pool cap
      30 cumulative invariant broken (balance < 0 or balance + withdrawn <> matured)
      31 a withdrawal paid more than the matured balance
+     33 a validator's matured total exceeds what was credited to it   34 matured rewards exceed the total distributed
      32 a WITHDRAW_REWARD amount that is negative or outside int64 was not refused                                  *)
 From Coq Require Import ZArith List Bool.
 From OL Require Import theories.Rewards gen.Facts_Consts.
@@ -52,7 +53,8 @@ Record blk := mkBlk {
   b_years : list year;                   (* rwcum_ydist before the block *)
   b_pool : Z;                            (* rewards pool balance *)
   b_votes : list vote; b_dp : Z; b_delegs : list (Z * Z); b_prop : Z;
-  b_matured_in : list Z;                 (* per reward address: chunk (index-2) value before the block *)
+  b_chunks : list (list (Z * Z));        (* per reward address: its latest chunks (index, value) before the block *)
+  b_ivs : list ivl;                      (* interval records (ri_) before the block *)
   ob_pull_ok : bool; ob_pull : Z;        (* real PullRewards on a shadow store living as long as the app process *)
   ob_cold_ok : bool; ob_cold : Z;        (* real PullRewards on a fresh store (cold cache) *)
   ob_years : list (Z * Z);               (* (distributed, tillLastCycle) after the block *)
@@ -61,7 +63,13 @@ Record blk := mkBlk {
   ob_delegs : list Z;                    (* per delegator: delta of delegRwz_balance *)
   ob_matured : list Z;                   (* per reward address: delta of rwcum_balance *)
   b_wtxs : list wtx;                     (* WITHDRAW_REWARD transactions delivered in the block *)
-  ob_deleg_total : Z                     (* sum of the deltas of ALL delegRwz_balance_ records in BeginBlock *)
+  ob_deleg_total : Z;                    (* sum of the deltas of ALL delegRwz_balance_ records in BeginBlock *)
+  ob_idx : list Z;                       (* per vote: index of the chunk that changed (0 = none) *)
+  ob_cred : list Z;                      (* per reward address, after the block: sum of ALL its chunks *)
+  ob_mat : list Z;                       (* per reward address, after the block: rwcum balance + withdrawn *)
+  ob_tdist : Z;                          (* rwcum_tdist after the block *)
+  (* an export taken right after this block (0 0 0 = none): version, dumped interval record *)
+  ob_dump_v : Z; ob_dump_index : Z; ob_dump_height : Z
 }.
 
 Record chain := mkChain { ch_o : opts; ch_blocks : list blk }.
@@ -94,13 +102,18 @@ Definition bound_monitor (o : opts) (ys : list year) (pool : Z) (m : cres * cach
   (if cres_ok (fst m) && (cres_z (fst m) =? a) then pull_bound o ys pool (snd m) a
    else pull_bound_any o ys pool a).
 
+Fixpoint chunk_lookup (cs : list (Z * Z)) (i : Z) : Z :=
+  match cs with [] => 0 | (j, v) :: r => if j =? i then v else chunk_lookup r i end.
+
 Definition check_blk (o : opts) (c : cache) (b : blk) : list Z * cache :=
   let c0 := if b_restart b then cold else c in
   let bt := bt_of o b in
   let k := region o bt (b_years b) (b_h b) c0 in
   let mc := pull o bt (b_years b) (b_h b) (b_pool b) cold in
   let mw := pull o bt (b_years b) (b_h b) (b_pool b) c0 in
-  let mat_expect := if matures_at o (b_h b) then b_matured_in b else map (fun _ => 0) (b_matured_in b) in
+  let midx := matured_idx o (b_ivs b) (b_h b) in
+  let cidx := chunk_idx o (b_ivs b) (b_h b) in
+  let mat_expect := map (fun cs => if matures_at o (b_h b) then chunk_lookup cs midx else 0) (b_chunks b) in
   let cold_codes :=
     mflag k 1 (Bool.eqb (cres_ok (fst mc)) (ob_cold_ok b) && (negb (ob_cold_ok b) || (cres_z (fst mc) =? ob_cold b)))
     ++ mflag k 7 (Bool.eqb (cres_ok (fst mw)) (ob_pull_ok b) && (negb (ob_pull_ok b) || (cres_z (fst mw) =? ob_pull b)))
@@ -116,13 +129,14 @@ Definition check_blk (o : opts) (c : cache) (b : blk) : list Z * cache :=
        ++ mflag k 3 (zlist_eqb (map (fun _ => 0) (b_delegs b)) (ob_delegs b) && (ob_deleg_total b =? 0))
        ++ mflag k 4 (0 =? ob_consumed b)
        ++ mflag k 5 (zlist_eqb (years_proj (b_years b)) (pairs_flat (ob_years b)))
-       ++ mflag k 6 (zlist_eqb (map (fun _ => 0) (b_matured_in b)) (ob_matured b)), snd mw)
+       ++ mflag k 6 (zlist_eqb (map (fun _ => 0) (b_chunks b)) (ob_matured b)), snd mw)
   | COk R =>
       match split K (b_votes b) (b_dp b) (b_delegs b) (b_prop b) R with
       | None => (cold_codes ++ mflag k 9 false, snd mw)
       | Some out =>
           (cold_codes
-           ++ mflag k 2 (zlist_eqb (map (fun v => expect_for (so_vals out) (v_addr v)) (b_votes b)) (ob_vals b))
+           ++ mflag k 2 (zlist_eqb (map (fun v => expect_for (so_vals out) (v_addr v)) (b_votes b)) (ob_vals b)
+                         && forallb (fun p => (fst p =? 0) || (snd p =? cidx)) (combine (ob_vals b) (ob_idx b)))
            (* no AddRewardsBalance call at all (empty pool / early return) = every delta is 0 *)
            ++ mflag k 3 (zlist_eqb (match so_delegs out with
                                  | [] => map (fun _ => 0) (b_delegs b)
@@ -143,14 +157,24 @@ Definition monitor_blk (o : opts) (b : blk) : list Z :=
   let k := 0 in
   flag (k + 10) (if ob_pull_ok b then credits <=? ob_pull b else credits =? 0)
   ++ flag (k + 11) (forallb (fun x => 0 <=? x) (ob_vals b ++ ob_delegs b) && (0 <=? ob_deleg_total b))
-  ++ flag (k + 12) (negb (ob_pull_ok b) || (0 <=? ob_pull b)).
+  ++ flag (k + 12) (negb (ob_pull_ok b) || (0 <=? ob_pull b))
+  (* a validator's matured total never exceeds what was ever credited to it (also across an
+     export / import), and all matured rewards together never exceed the total distributed *)
+  ++ flag 33 (forallb (fun p => fst p <=? snd p) (combine (ob_mat b) (ob_cred b)))
+  ++ flag 34 (zsum (ob_mat b) <=? ob_tdist b).
+
+(* the exported interval record against the model's dump (13) *)
+Definition check_dump (o : opts) (b : blk) : list Z :=
+  if ob_dump_v b =? 0 then []
+  else let d := dump_interval o (b_ivs b) (ob_dump_v b) in
+       flag 13 ((iv_index d =? ob_dump_index b) && (iv_height d =? ob_dump_height b)).
 
 Fixpoint check_blocks (o : opts) (c : cache) (i : Z) (bs : list blk) : list Z :=
   match bs with
   | [] => []
   | b :: r =>
       let res := check_blk o c b in
-      flat_map (fun code => [i; code]) (fst res ++ monitor_blk o b ++ flat_map check_wtx (b_wtxs b)) ++ check_blocks o (snd res) (i + 1) r
+      flat_map (fun code => [i; code]) (fst res ++ monitor_blk o b ++ flat_map check_wtx (b_wtxs b) ++ check_dump o b) ++ check_blocks o (snd res) (i + 1) r
   end.
 
 (* (chain index, block index, code) triples, flattened *)
